@@ -3,6 +3,9 @@
 package osmpbf
 
 import (
+	"context"
+	"time"
+
 	"github.com/paulmach/osm"
 	"github.com/paulmach/osm/osmpbf/internal/osmpbf"
 )
@@ -113,4 +116,89 @@ func VerifH_C01_noInherit() {
 	vAssert(vSame(o2, b.expected()), "second-equals-spec-nothing-inherited")
 	// objects handed out for the first block are not touched by decoding the second
 	vAssert(vSame(o1, exp1), "first-block-objects-unchanged")
+}
+
+// VerifH_C01_header: Header() reports the header block's bounding box (nanodegrees),
+// required / optional features, writing program, source and the three replication
+// fields unchanged, each present or absent.
+func VerifH_C01_header() {
+	var h pbw
+	mask := vRange("present", 0, 15) // bit0 bbox, bit1 program+source, bit2 replication fields, bit3 optional features
+	wd := 5
+	var left, right, top, bottom int64
+	if mask&1 != 0 {
+		sym := func(name string) int64 {
+			v := vInt64(name)
+			vAssume(fits(zig(v), wd))
+			return v
+		}
+		left, right, top, bottom = sym("left"), sym("right"), sym("top"), sym("bottom")
+		var b pbw
+		b.varintField(1, zig(left), wd)
+		b.varintField(2, zig(right), wd)
+		b.varintField(3, zig(top), wd)
+		b.varintField(4, zig(bottom), wd)
+		h.bytesField(1, b.b)
+	}
+	h.bytesField(4, []byte("OsmSchema-V0.6"))
+	h.bytesField(4, []byte("DenseNodes"))
+	opt := vStr("optional", 2)
+	if mask&8 != 0 {
+		h.bytesField(5, []byte(opt))
+		h.bytesField(5, []byte("Sort.Type_then_ID"))
+	}
+	prog, src := vStr("program", 2), vStr("source", 1)
+	if mask&2 != 0 {
+		h.bytesField(16, []byte(prog))
+		h.bytesField(17, []byte(src))
+	}
+	var ts, seq int64
+	url := vStr("url", 2)
+	if mask&4 != 0 {
+		ts, seq = vInt64("repTimestamp"), vInt64("repSeq")
+		vAssume(vAnd(vAnd(ts >= 0, fits(uint64(ts), wd)), vAnd(seq >= 0, fits(uint64(seq), wd))))
+		h.varintField(32, uint64(ts), wd)
+		h.varintField(33, uint64(seq), wd)
+		h.bytesField(34, []byte(url))
+	}
+	good := simpleBlock(1)
+	var data []byte
+	data = append(data, frame("OSMHeader", h.b)...)
+	data = append(data, frame("OSMData", good.encode())...)
+	sc := New(context.Background(), &vReader{data: data}, 1)
+	got, err := sc.Header()
+	vReach("header-read")
+	vAssert(err == nil && got != nil, "header-no-error")
+	if err != nil || got == nil {
+		return
+	}
+	vAssert(vSame(got.RequiredFeatures, []string{"OsmSchema-V0.6", "DenseNodes"}), "required-features")
+	if mask&8 != 0 {
+		vAssert(vSame(got.OptionalFeatures, []string{opt, "Sort.Type_then_ID"}), "optional-features")
+	} else {
+		vAssert(len(got.OptionalFeatures) == 0, "optional-features-absent")
+	}
+	if mask&1 != 0 {
+		vAssert(got.Bounds != nil, "bounds-present")
+		if got.Bounds != nil {
+			want := &osm.Bounds{MinLon: 1e-9 * float64(left), MaxLon: 1e-9 * float64(right), MinLat: 1e-9 * float64(bottom), MaxLat: 1e-9 * float64(top)}
+			vAssert(vSame(got.Bounds, want), "bounds-in-nanodegrees")
+		}
+	} else {
+		vAssert(got.Bounds == nil, "bounds-absent")
+	}
+	if mask&2 != 0 {
+		vAssert(got.WritingProgram == prog && got.Source == src, "program-and-source")
+	} else {
+		vAssert(got.WritingProgram == "" && got.Source == "", "program-and-source-absent")
+	}
+	if mask&4 != 0 {
+		vAssert(got.ReplicationSeqNum == uint64(seq) && got.ReplicationBaseURL == url, "replication-sequence-and-url")
+		vAssert(got.ReplicationTimestamp.Equal(time.Unix(ts, 0)), "replication-timestamp")
+	} else {
+		vAssert(got.ReplicationSeqNum == 0 && got.ReplicationBaseURL == "" && got.ReplicationTimestamp.IsZero(), "replication-fields-absent")
+	}
+	// the scan itself still works after Header()
+	vAssert(sc.Scan(), "scan-after-header")
+	sc.Close()
 }
